@@ -732,8 +732,13 @@ def weights_predictable(f):
     if len(ms) < 2:
         ms = ms + [(1, 1)]
     found = []
-    for seeded in (False, True):
+    recipe = f.detail.get('weight_recipe')
+    for (seeded, dup) in ((False, False), (True, False)) + (((False, True),) if recipe else ()):
         cfg = {'scenario': 'batch', 'n': n, 'x': x, 'members': [{'m': m, 'cap': cap, 'seeded': seeded and m == 1} for (m, cap) in ms], 'attacks': True}
+        if recipe:
+            # the derivation the model recorded on THIS tree (bindings folded into one absorbed value), re-executed on the real crates
+            cfg['weight_recipe'] = recipe
+            cfg['duplicate_last'] = dup
         o = run_replay(cfg, 1)
         if 'crash' in o:
             return None, o
